@@ -578,6 +578,10 @@ func needsSingleQuoting(s string) bool {
 func quoteScalar(s string) string {
 	switch {
 	case needsSingleQuoting(s):
+		if strings.ContainsAny(s, "\n\r\t") || yamlUnprintable(s) {
+			// A single-quoted scalar cannot carry these; escape them.
+			return strconv.Quote(s)
+		}
 		return singleQuoted(s)
 	case shouldQuote(s):
 		return strconv.Quote(s)
